@@ -64,7 +64,7 @@ def plan(tier, seed):
                 add(sc(wv, el), sc(wv, er), '%s:%d|same:%d' % (short(wv), el, er))
         for lr, rr, el, er in [(S64, S64, 0, -20), (S64, S32, 0, -6), (U64, U64, -3, -12)]:
             add(sc(lr, el, 10), sc(rr, er, 10), 'r10|%s:%d|%s:%d' % (short(lr), el, short(rr), er))
-    cases = 8000 if quick else 100000
+    cases = 20000 if quick else 150000
     units = [Unit('C01-gxx-%d' % i, 'gxx', 'props/C01.h', part, rc_cases=cases, enum_max=2 ** 19, chunk=10)
              for i, part in enumerate(split(regs, 16))]
     cl = [r for r in regs if ('int:' in r and 'short' not in r) or 'r10' in r][:40]
